@@ -15,13 +15,18 @@ REGISTRY = {
     'text': 'Lean theorems about the hand-written model of mod_builder.py: static_spec (per-index table over matched / pre-modified / '
             'mode, unmatched residues and all other fields untouched), static_skip_idempotent, variable_skip_exact (mode skip: the '
             'output is a permutation of the explicit subset enumeration specForms, duplicate-free when the offered groups are '
-            'distinct, the input form is a member) and the weaker clauses for append/overwrite; the model is tied to /repo by '
+            'distinct, the input form is a member) and the weaker clauses for append/overwrite; for rules given as regexes of the '
+            'RegexLite subset (literals, classes, look-around forms, multi-character matches, the empty pattern) the matcher '
+            '(get_regex_match_range / get_regex_match_indices) is modelled too, the site-list hypotheses are theorems '
+            '(pattern_sites_ok) and the statements hold end to end (static_class_rule, static_residue_rule, '
+            'variable_skip_exact_patterns); the model is tied to /repo by '
             'differential correspondence (apply_static_mods, apply_variable_mods, _apply_variable_mods_rec; residue strings 1..10, '
             'pre-modified, 1..3 residue/regex targets, 1..3 groups, terminal rules, max_mods 0..4, three modes, both return types) '
             'and the implementation is compared with an independent Python subset enumeration and with the Lean specification',
-    'note': 'trusted: Lean kernel, axioms propext/Classical.choice/Quot.sound, the correspondence harness; the regex engine is outside '
-            'the model (rules enter as the site lists computed by get_regex_match_indices and are compared with an independent reading '
-            'of every rule in the pool); Mod value conversion and serialization belong to C10/C01',
+    'note': 'trusted: Lean kernel, axioms propext/Classical.choice/Quot.sound, the correspondence harness; regexes outside the '
+            'RegexLite subset stay outside the model (such rules enter as the site lists computed by get_regex_match_indices and are '
+            'compared with an independent reading of every rule in the pool), for the subset the regex -> item list reader is trusted; '
+            'Mod value conversion and serialization belong to C10/C01',
     'technique': 'Lean 4 proof about executable model + differential correspondence + independent enumeration oracle',
 }
 
@@ -1010,8 +1015,8 @@ def run(chk):
         chk.count('reach:lines_missed', sum(len(v) for v in missed.values()))
 
     if not quick:
-        chk.leanchecker(['PeptVerif.Model.ModBuilder', 'PeptVerif.Spec.ModBuilder', 'PeptVerif.Lemmas.ModBuilder',
-                         'PeptVerif.Props.C13'])
+        chk.leanchecker(['PeptVerif.Model.ModBuilder', 'PeptVerif.Model.ModBuilderRegex', 'PeptVerif.Spec.ModBuilder',
+                         'PeptVerif.Lemmas.ModBuilder', 'PeptVerif.Lemmas.ModBuilderRegex', 'PeptVerif.Props.C13'])
     return chk.finish(classify)
 
 
